@@ -17,7 +17,6 @@ SHAPE_KEYS: set[tuple[str, str]] = {
     ("C11.R2", "retype-notify"),
     ("C11.R3", "user-listener-dropped"),
     ("C11.R3", "walker-handler-missing"),
-    ("C11.R6", "first-match"),
     ("C13.R2", "new-erase-site"),
     ("C13.R2", "unguarded-erase"),
     ("C13.R4", "entry-block"),
